@@ -3,6 +3,7 @@ import Req.C02.RespSM
 import Req.C02.H1Body
 import Req.C02.H1Msg
 import Req.C02.H3Recv
+import Req.C02.H2Recv
 /-! Driver lanes of C02. -/
 namespace Req.Driver.L.C02
 open Req.Proto Req.C02
@@ -188,8 +189,58 @@ def laneH3Recv : List String → String
     | _, _, _, _, _ => "bad-op"
   | _ => "bad-op"
 
+def h2ErrStr : Option H2Err → String
+  | none => "ok"
+  | some .eof => "eof" | some .unexpectedEOF => "unexpectedEOF" | some .overDeclared => "overDeclared"
+  | some .streamProto => "streamProto" | some .connProto => "connProto" | some .rst => "rst"
+  | some .closedBody => "closedBody" | some .pipeWrite => "pipeWrite"
+
+/-- event: `H;<es 0|1>;<fields>` | `D;<es>;<padded 0|1>;<hex>` | `R` -/
+def decodeH2Ev (s : String) : Option H2Ev :=
+  match s.splitOn ";" with
+  | ["H", es, fs] => do
+    let es ← (match es.toList with | [c] => parseBool01 c | _ => none)
+    let fs ← decodeFields fs
+    pure (.headers fs es)
+  | ["D", es, pad, d] => do
+    let es ← (match es.toList with | [c] => parseBool01 c | _ => none)
+    let pad ← (match pad.toList with | [c] => parseBool01 c | _ => none)
+    let d ← decodeHex d
+    pure (.data d pad es)
+  | ["R"] => some .rst
+  | _ => none
+
+def decodeH2Evs (s : String) : Option (List H2Ev) :=
+  if s == "none" then some [] else (s.splitOn "/").mapM decodeH2Ev
+
+/-- `c02h2recv <head 0|1> <events> <reads>`: all frames are delivered, then the caller reads.
+→ `error:<e>` (RoundTrip failed) or `status=… hdr=… err=… data=… trailer=…` -/
+def laneH2Recv : List String → String
+  | [hd, evs, reads] =>
+    match hd.toList, decodeH2Evs evs, decodeNatList reads with
+    | [c], some evs, some reads =>
+      match parseBool01 c with
+      | none => "bad-op"
+      | some isHead =>
+        let s := evs.foldl (fun s e => s.event e) (H2Stream.init isHead)
+        match s.res with
+        | none => "error:" ++ h2ErrStr (match s.headErr with | some e => some e | none => some .connProto)
+        | some res =>
+          let (data, err, tr) :=
+            match res.body with
+            | .piped =>
+              let (rs, s') := s.runReads reads
+              let lastErr := match rs.getLast? with | some (_, e) => e | none => none
+              ((rs.map (·.1)).flatten, lastErr, s'.resTrailer)
+            | k => ([], (if reads.isEmpty then none else k.readFixed), s.resTrailer)
+          "status=" ++ toString res.status ++ " hdr=" ++ kvStr (res.fields.filter keepField) ++
+            " err=" ++ h2ErrStr err ++ " data=" ++ encodeHex data ++ " trailer=" ++ kvStr tr
+    | _, _, _ => "bad-op"
+  | _ => "bad-op"
+
 def lanes : List (String × (List String → String)) := [
   ("c02ops", laneOps),
+  ("c02h2recv", laneH2Recv),
   ("c02h3recv", laneH3Recv),
   ("c02h1msg", laneH1Msg),
   ("c02h1body", laneH1Body)
